@@ -35,6 +35,12 @@ fn strs(big: bool) -> Vec<String> {
             v.push(s_of(l, 2));
         }
     }
+    // characters a decoder might be tempted to treat specially: a leading / lone / trailing U+FEFF (MQTT-1.5.4-3: never
+    // skipped or stripped), leading and trailing spaces, the largest code points of 1, 2 and 3 bytes, a private-use and a
+    // supplementary-plane character at the very start and end
+    for t in ["\u{feff}", "\u{feff}welcome", "in\u{feff}side", "trailing\u{feff}", " lead", "trail ", "\u{7f}x", "\u{7ff}\u{800}", "\u{e000}mid\u{10ffff}", "\u{10000}"] {
+        v.push(t.to_string());
+    }
     v.dedup();
     v
 }
